@@ -76,6 +76,10 @@ type FieldSpec struct {
 	Tokens []TokenSpec `json:"tok,omitempty"`
 	Syn    []SynDef    `json:"syn,omitempty"`
 	Vec    *VecSpec    `json:"vec,omitempty"`
+	// Shape, when set, makes the field a geo-shape field: the encoded shape is
+	// not a dictionary term but is carried as an extra doc value of the document
+	// (only if the field has doc values).
+	Shape []byte `json:"shape,omitempty"`
 }
 
 type DocSpec struct {
